@@ -117,9 +117,12 @@ def make(ctx, rng, kind, units=1.0, pipeline=False, degenerate=False, far=False)
     else:
         subs = rng.integers(1, 5, size=n)
         submode = "per_pixel"
-    osamp = aa.OverSamplerUniform(mask=mask, sub_size=aa.Array2D(values=subs.astype(int), mask=mask))
+    # the sub-size map as a user may hold it: the platform integer, or a compact integer type (sub sizes are small numbers)
+    sub_dtype = [np.int64, np.int64, np.int32, np.int16, np.int8, np.uint8][int(rng.integers(6))] if submode == "per_pixel" else np.int64
+    osamp = aa.OverSamplerUniform(mask=mask, sub_size=aa.Array2D(values=subs.astype(sub_dtype), mask=mask))
     g = _np(osamp.over_sampled_grid).copy()
     src, dk = gen_aa.distort(rng, g, strength=float(rng.uniform(0.05, 0.4)))
+    submode = submode + (":" + np.dtype(sub_dtype).name if sub_dtype is not np.int64 else "")
     if degenerate:
         # a pure stretch + shift along the axes keeps a row on a line of constant y and a column on a line of constant x
         src = g * np.array([float(rng.uniform(0.5, 2.0)), float(rng.uniform(0.5, 2.0))]) + rng.normal(size=2)
